@@ -8,18 +8,21 @@
     kind (pruned branch / library shortcuts of Maybe, Either, Ref, "^", "maybe^").
     Data-driven recursion is structural on the cell tree (no fuel). *)
 From Coq Require Import List NArith ZArith Arith Lia Bool.
-From Tongo Require Import Lib.Bits Lib.Res Spec.TlWire Spec.Dict Model.Hashmap Model.BocParse
+From Tongo Require Import Lib.Bits Lib.Res Spec.TlWire Spec.Dict Model.Hashmap Model.BocParse Model.VmMap
      Model.TlbCore Model.TlbTotal Proofs.TlbTotalP Model.TlbHand Proofs.TlbHandP Proofs.TlbHandR
      Proofs.TlbHandR2 Proofs.TlbHandR3 Proofs.TlbHandR4 Model.Framing Proofs.FramingP Proofs.TlbHandTL.
 Import ListNotations.
 Local Open Scope N_scope.
 
-(** tlb.Unmarshal on every extended descriptor, environment, fuel and cell
-    tree (any kinds, any bit lengths, any shape): a value or an error, never a
-    panic *)
+(** tlb.Unmarshal / Decoder.Unmarshal on every extended descriptor, environment,
+    fuel, cell tree (any kinds, any bit lengths, any shape), hash oracle and
+    library resolver — including resolvers that answer with a library cell
+    again (the same, a copy, a cycle), a pruned branch or a huge cell: a value or
+    an error, never a panic; decode() resolves a library cell at most once per
+    call, so the walk is structurally finite (no fuel is spent on resolving) *)
 Theorem C08_ext_decode_total :
-  forall env hash_ok fuel t c p, fst (yunmarshal env hash_ok fuel t c) <> Panic p.
-Proof. intros env hk fuel t c. apply np_spec. apply (yunmarshal_np env hk fuel t c). Qed.
+  forall env hash_ok resolve fuel t c p, fst (yunmarshal env hash_ok resolve fuel t c) <> Panic p.
+Proof. intros env hk rs fuel t c. apply np_spec. apply (yunmarshal_np env hk rs fuel t c). Qed.
 Print Assumptions C08_ext_decode_total.
 
 (** for closed descriptors nested no deeper than the fuel: the fuel is never
@@ -28,7 +31,7 @@ Print Assumptions C08_ext_decode_total.
     inside the data (depth, count, label or byte length) enters the bound *)
 Theorem C08_ext_decode_cost :
   forall env hash_ok fuel t, yfits fuel t = true -> forall c,
-  let r := yunmarshal env hash_ok fuel t c in
+  let r := yunmarshal env hash_ok no_resolver fuel t c in
   fst r <> Err EFuel /\
   c_steps (snd r) + c_alloc (snd r) <= usz fuel t * tsz c * thg c.
 Proof.
@@ -37,7 +40,7 @@ Proof.
   unfold dpost, wt in H. rewrite !cell_of_slice in H. specialize (H (N.le_refl _)).
   destruct H as [Hc Hr].
   split.
-  - destruct (fst (ydec env hk fuel t (slice_of c) (mkct 0 0)));
+  - destruct (fst (ydec env hk no_resolver fuel t (slice_of c) (mkct 0 0)));
       [discriminate | intros E; inversion E; subst; apply Hr; reflexivity | contradiction].
   - unfold cost, wt in Hc. cbn [c_steps c_alloc] in Hc. lia.
 Qed.
@@ -46,13 +49,13 @@ Print Assumptions C08_ext_decode_cost.
 (** what is left unread is a suffix of what was there *)
 Theorem C08_ext_decode_suffix :
   forall env hash_ok fuel t, yfits fuel t = true -> forall c s',
-  fst (yunmarshal env hash_ok fuel t c) = Ok s' ->
+  fst (yunmarshal env hash_ok no_resolver fuel t c) = Ok s' ->
   (length (yb s') <= length (yb (slice_of c)))%nat /\ exists pre, yr (slice_of c) = pre ++ yr s'.
 Proof.
   intros env hk fuel t Hf c s' E.
   pose proof (ydec_cost env hk (thg c) (thg_pos c) fuel t Hf (slice_of c) (mkct 0 0)) as H.
   unfold dpost, wt in H. rewrite !cell_of_slice in H. specialize (H (N.le_refl _)).
-  destruct H as [_ Hr]. fold (yunmarshal env hk fuel t c) in Hr. rewrite E in Hr. exact Hr.
+  destruct H as [_ Hr]. fold (yunmarshal env hk no_resolver fuel t c) in Hr. rewrite E in Hr. exact Hr.
 Qed.
 
 (** ** VmStack: getStackListItems *)
@@ -89,13 +92,19 @@ Theorem C08_vmstack_unmarshal_tl_full_total :
   forall b, bytes_ok b -> forall p, vmstack_unmarshal_tl_full b <> Panic p.
 Proof. intros b Hb. apply np_spec. apply vmstack_unmarshal_tl_full_total. exact Hb. Qed.
 
+(** ** the stack -> Go value mapping of integer entries (VmStackValue.Unmarshal):
+    every int257 (incl. the minimum -2^256) into every destination kind is a
+    value or an error, never a panic *)
+Theorem C08_map_int_total : forall v d p, map_int v d <> Panic p.
+Proof. exact map_int_total. Qed.
+
 (** ** dictionaries *)
 
 (** mapInner on any cell tree with any value / extra decoder that satisfies
     its own bound: linear in size x height, any key size *)
 Theorem C08_hashmap_cost :
   forall env hash_ok fuel n vsz v, yfits fuel v = true -> forall c,
-  let r := yunmarshal env hash_ok (S fuel) (YHashmap n vsz v) c in
+  let r := yunmarshal env hash_ok no_resolver (S fuel) (YHashmap n vsz v) c in
   (forall p, fst r <> Panic p) /\ fst r <> Err EFuel /\
   c_steps (snd r) + c_alloc (snd r) <= (1 + hm_k n vsz (usz fuel v) 0) * tsz c * thg c.
 Proof.
@@ -134,5 +143,5 @@ Example C08_ext_satisfiable :
   let t := YMaybe (YRef (YHashmap 2 9 (YUint 8))) in
   let leaf (k : bool) (v : N) := XT 0 ([true; false] ++ bits_of 1 1 ++ [k] ++ bits_of 8 v) [] in
   let root := XT 0 ([true; false] ++ bits_of 2 0) [leaf false 7; leaf true 9] in
-  yfits 4 t = true /\ exists s, fst (yunmarshal [] (fun _ => true) 4 t (XT 0 [true] [root])) = Ok s.
+  yfits 4 t = true /\ exists s, fst (yunmarshal [] (fun _ => true) no_resolver 4 t (XT 0 [true] [root])) = Ok s.
 Proof. vm_compute. split; [reflexivity | eexists; reflexivity]. Qed.
